@@ -2,7 +2,7 @@
    reading guide in Props/C03.v).  C04_ggsw_cells (Proofs/C04Phase.v) = key_rows_ok with src_ci = m2 (x) Sk ci: cell (row, ci) of the GGSW
    encrypts m2 2^(-(row+1) dsize b) for ci = 0 and s_{ci-1} m2 2^(..) for ci >= 1 (HYPOTHESIS of the phase theorems). *)
 From PV Require Import Base.MachineInt Model.Znx Model.Limbs Model.Flat Model.Ring Model.Poly Model.DftAbs Model.Gadget Model.GadgetOracle Model.C04Run.
-From PV Require Import Model.GadgetSpec Proofs.C07Dft Proofs.C07Ring Proofs.GadgetDecomp Proofs.GadgetPhase Proofs.GadgetBound Proofs.C03Phase Proofs.C04Phase Model.GadgetEnc Proofs.GadgetEnc Proofs.GadgetNorm.
+From PV Require Import Model.GadgetSpec Proofs.C07Dft Proofs.C07Ring Proofs.GadgetDecomp Proofs.GadgetPhase Proofs.GadgetBound Proofs.C03Phase Proofs.C04Phase Model.GadgetEnc Proofs.GadgetEnc Proofs.GadgetNorm Model.GadgetDerived Proofs.GadgetSigma Proofs.GadgetShape Proofs.GadgetDerived.
 Open Scope Z_scope.
 
 (* (3c) phase(res) = m2 (x) phase(limbs l < min(a_size, dnum*dsize) of ct) + E + 2^P Iq, on the model, all shapes, both modes, any prior accumulator content of the right shape *)
@@ -236,6 +236,95 @@ Theorem C04_external_product_phase_val_enc :
 Proof. exact C04_external_product_phase_val_enc_lemma. Qed.
 Print Assumptions C04_external_product_phase_val_enc.
 
+(* (7) GGSW row expansion on the model: column j = gadget product of the mask columns with the tensor key + body on column j encrypts s_{j-1} (x) M_r with error s_{j-1} (x) e0 + E *)
+Theorem C04_ggsw_expand_row_cells :
+  forall (P b : Z) (n rank msize a_size dsize dnum j : nat) (ct0 res0 : cols_t) (K : pmat) (Sk : nat -> list Z) (e I : nat -> nat -> list Z)
+      (Mr e0 I0 : list Z) (Sb env : Z),
+    wf_cols n (S rank) a_size ct0 ->
+    wf_pmat_in n (dnum * rank) (msize * S rank) K ->
+    (1 <= n)%nat ->
+    (1 <= dsize)%nat ->
+    (dsize - 2 <= msize)%nat ->
+    (a_size <= dnum * dsize)%nat ->
+    (forall co : nat, length (Sk co) = n) ->
+    Sk 0%nat = pone n ->
+    (forall row ci : nat, length (e row ci) = n) ->
+    (forall row ci : nat, length (I row ci) = n) ->
+    0 <= b ->
+    Z.of_nat msize * b <= P ->
+    Z.of_nat dnum * Z.of_nat dsize * b <= P ->
+    key_rows_ok P b n rank (S rank) msize dsize dnum K Sk (fun i : nat => pmul (Sk (S i)) (Sk j)) e I ->
+    length Mr = n ->
+    length e0 = n ->
+    length I0 = n ->
+    phase_f P b n (S rank) a_size (acol n ct0) Sk = padd (padd Mr e0) (pscale (2 ^ P) I0) ->
+    pnorm (Sk j) <= Sb ->
+    pnorm (gadget_err P b n rank (S rank) msize dsize dnum (acol n (tl ct0)) K Sk e) <= env ->
+    exists res : cols_t,
+      gadget_product n (S rank) msize res0 (tl ct0) a_size dsize dnum msize true K = Some res /\
+      padd (phase_f P b n (S rank) msize (limbs_of res) Sk) (pmul (pval P b n (acol n ct0 0) a_size) (Sk j)) =
+      padd (padd (pmul (Sk j) Mr) (padd (pmul (Sk j) e0) (gadget_err P b n rank (S rank) msize dsize dnum (acol n (tl ct0)) K Sk e)))
+        (pscale (2 ^ P) (padd (gadget_int b n rank (S rank) msize dsize dnum (acol n (tl ct0)) K Sk I) (pmul (Sk j) I0))) /\
+      pnorm (padd (pmul (Sk j) e0) (gadget_err P b n rank (S rank) msize dsize dnum (acol n (tl ct0)) K Sk e)) <= Z.of_nat n * Sb * pnorm e0 + env.
+Proof. exact ggsw_expand_row_cells_lemma. Qed.
+Print Assumptions C04_ggsw_expand_row_cells.
+
+(* (7) GGSW key switch = key switch of column 0 then row expansion: every cell keeps m2 (phase level) *)
+Theorem C04_ggsw_keyswitch_cells :
+  forall (n : nat) (P : Z),
+    (0 < n)%nat ->
+    forall (sj ph0 ph0' phj Mr e0 I0 Eks Iks KS c0s Ej Iq : list Z) (Sb envj : Z),
+    length sj = n ->
+    length Mr = n ->
+    length e0 = n ->
+    length I0 = n ->
+    length Eks = n ->
+    length Iks = n ->
+    length KS = n ->
+    length c0s = n ->
+    length Ej = n ->
+    length Iq = n ->
+    ph0 = padd (padd Mr e0) (pscale (2 ^ P) I0) ->
+    ph0' = padd (padd ph0 Eks) (pscale (2 ^ P) Iks) ->
+    padd KS c0s = pmul sj ph0' ->
+    phj = padd (padd (padd KS Ej) (pscale (2 ^ P) Iq)) c0s ->
+    pnorm sj <= Sb ->
+    pnorm Ej <= envj ->
+    phj = padd (padd (pmul sj Mr) (padd (pmul sj (padd e0 Eks)) Ej)) (pscale (2 ^ P) (padd Iq (pmul sj (padd I0 Iks)))) /\
+    pnorm (padd (pmul sj (padd e0 Eks)) Ej) <= Z.of_nat n * Sb * (pnorm e0 + pnorm Eks) + envj.
+Proof. exact ggsw_keyswitch_cells_lemma. Qed.
+Print Assumptions C04_ggsw_keyswitch_cells.
+
+(* (7) GGSW automorphism: every cell encrypts sigma_g m2 (phase level) *)
+Theorem C04_ggsw_automorphism_cells :
+  forall (n : nat) (P : Z),
+    (0 < n)%nat ->
+    forall g : Z,
+    Z.gcd g (2 * Z.of_nat n) = 1 ->
+    forall (r : Z) (sj ph0 ph0' phj m2 e0 I0 Eks Iks KS c0s Ej Iq : list Z) (Sb envj : Z),
+    length sj = n ->
+    length m2 = n ->
+    length e0 = n ->
+    length I0 = n ->
+    length Eks = n ->
+    length Iks = n ->
+    length KS = n ->
+    length c0s = n ->
+    length Ej = n ->
+    length Iq = n ->
+    ph0 = padd (padd (pscale r m2) e0) (pscale (2 ^ P) I0) ->
+    ph0' = padd (padd (sigmaE g ph0) Eks) (pscale (2 ^ P) Iks) ->
+    padd KS c0s = pmul sj ph0' ->
+    phj = padd (padd (padd KS Ej) (pscale (2 ^ P) Iq)) c0s ->
+    pnorm sj <= Sb ->
+    pnorm Ej <= envj ->
+    phj =
+    padd (padd (pmul sj (pscale r (sigmaE g m2))) (padd (pmul sj (padd (sigmaE g e0) Eks)) Ej))
+      (pscale (2 ^ P) (padd Iq (pmul sj (padd (sigmaE g I0) Iks)))) /\
+    pnorm (padd (pmul sj (padd (sigmaE g e0) Eks)) Ej) <= Z.of_nat n * Sb * (pnorm e0 + pnorm Eks) + envj.
+Proof. exact ggsw_automorphism_cells_lemma. Qed.
+Print Assumptions C04_ggsw_automorphism_cells.
+
 (* (6) Gadget.glwe_external_product (input radix = GGSW radix) with the final normalisation; per-column normalize_value_ok is a hypothesis *)
 Theorem C04_glwe_external_product_phase_final :
   forall (be P b rb : Z) (n msize a_size res_size dsize dnum : nat) (a : cols_t) (K : pmat) (sk : list (list Z)) (m2 : list Z)
@@ -309,3 +398,11 @@ Proof. exact C04_cmux_hypotheses_satisfiable_lemma. Qed.
 
 Example C04_ggsw_body_satisfiable : ggsw_body_ok 8 4 2 1 2 1 2 (ex4_K ex4_m2) (sk_ext 2 ex4_sk) ex4_m2 ex4_zero ex4_zero.
 Proof. exact ggsw_body_satisfiable_lemma. Qed.
+
+Example C04_expand_row_hypotheses_satisfiable :
+  wf_cols 2 2 2 ex5_ct0 /\ wf_pmat_in 2 (1 * 1) (2 * 2) ex5_K /\ (2 <= 1 * 2)%nat /\
+  sk_ext 2 ex5_sk 0 = pone 2 /\
+  key_rows_ok 8 4 2 1 2 2 2 1 ex5_K (sk_ext 2 ex5_sk) (fun i => pmul (sk_ext 2 ex5_sk (S i)) (sk_ext 2 ex5_sk 1)) ex5_zero ex5_zero /\
+  phase_f 8 4 2 2 2 (acol 2 ex5_ct0) (sk_ext 2 ex5_sk)
+  = padd (padd (phase_f 8 4 2 2 2 (acol 2 ex5_ct0) (sk_ext 2 ex5_sk)) (pzero 2)) (pscale (2 ^ 8) (pzero 2)).
+Proof. exact expand_row_hypotheses_satisfiable_lemma. Qed.
